@@ -60,8 +60,11 @@ enum Pat {
     SleepersThenShutdown,
     /// the start stage spawns N tasks and requests a shutdown in the same call
     StartThenShutdown,
+    /// N tasks whose 0.5 s timeout is armed and resolved (cancelled) in the start instant and
+    /// which then sleep to 1 s: the live timers sit behind cancelled ones in the module's timer queue
+    SleepBehindCancelledTimer,
 }
-const PATS: [Pat; 21] = [
+const PATS: [Pat; 22] = [
     Pat::Sleepers,
     Pat::Chain,
     Pat::NotifyAll,
@@ -83,6 +86,7 @@ const PATS: [Pat; 21] = [
     Pat::NotifyThenRestart,
     Pat::SleepersThenShutdown,
     Pat::StartThenShutdown,
+    Pat::SleepBehindCancelledTimer,
 ];
 
 #[derive(Clone, Copy, Debug, PartialEq, Eq)]
@@ -182,6 +186,20 @@ impl Module for Mo {
                     });
                 }
                 schedule_in(Message::default().kind(12), Duration::from_secs(1));
+            }
+            Pat::SleepBehindCancelledTimer => {
+                for i in 0..n {
+                    let l = self.log.clone();
+                    let (tx, rx) = oneshot::channel::<()>();
+                    spawn_kind(k, async move {
+                        let _ = des::time::timeout(Duration::from_millis(500), rx).await;
+                        sleep(Duration::from_secs(1)).await;
+                        l.lock().unwrap().push((i as u32, now()));
+                    });
+                    spawn_kind(k, async move {
+                        let _ = tx.send(());
+                    });
+                }
             }
             Pat::StartThenShutdown => {
                 for i in 0..n {
@@ -432,6 +450,7 @@ fn polls_needed(c: &Case) -> usize {
         Pat::Drain => 1,
         Pat::Yield => 1 + c.n,
         Pat::JoinAll | Pat::TimerThenNotify | Pat::ElementEndHookOnTimer => c.n + 1,
+        Pat::SleepBehindCancelledTimer => 3 * c.n,
         _ => c.n,
     }
 }
@@ -545,7 +564,7 @@ impl Property for C06 {
         ]
     }
     fn required_features(&self, _tier: Tier) -> Vec<&'static str> {
-        vec!["n_at_least_61_runtime_tasks", "wake_chain", "restart_trigger", "start_stage_trigger", "message_trigger", "timer_trigger", "local_tasks", "processing_element_trigger", "shutdown_requested_in_the_event"]
+        vec!["n_at_least_61_runtime_tasks", "wake_chain", "restart_trigger", "start_stage_trigger", "message_trigger", "timer_trigger", "local_tasks", "processing_element_trigger", "shutdown_requested_in_the_event", "timer_behind_cancelled_timer"]
     }
     fn finding_classes(&self) -> Vec<&'static str> {
         vec!["deferred_wake_in_event", "spawn_local_gt60_polls"]
@@ -579,6 +598,7 @@ impl Property for C06 {
                         Pat::NotifyThenShutdown | Pat::NotifyThenRestart | Pat::SleepersThenShutdown | Pat::StartThenShutdown => ctx.hit("shutdown_requested_in_the_event"),
                         Pat::StartStage => ctx.hit("start_stage_trigger"),
                         Pat::Sleepers => ctx.hit("timer_trigger"),
+                        Pat::SleepBehindCancelledTimer => ctx.hit("timer_behind_cancelled_timer"),
                         Pat::NotifyAll => ctx.hit("message_trigger"),
                         Pat::ElementConsumes | Pat::ElementStartHook | Pat::ElementEndHook | Pat::ElementEndHookOnTimer | Pat::ElementEndHookOnStart => ctx.hit("processing_element_trigger"),
                         _ => {}
